@@ -4,9 +4,11 @@
    range are on the grid, and the cell lies inside the hull of the range.
    [inv s]: the same for EVERY sheet's view (any sheet can become the selected one) + the sheet
    entries of the undo/redo stacks are well formed.
-   The property as stated is FALSE on the current code (seven refutations, each a history replayed
-   on the implementation by harness/c28); it holds along every history that avoids the six
-   decidable classes [bad] (Selection.v), from any workbook. *)
+   The property as stated is FALSE on the current code (three refutations, each a history replayed
+   on the implementation by harness/c28: on_area_selecting twice, on_paste_styles); it holds along
+   every history that avoids the decidable classes [bad] of these two methods (Selection.v), from
+   any workbook.  delete_sheet, redo of DeleteSheet, on_page_down and on_page_up, refuted on the
+   earlier tree, are repaired in /repo (422225e, ccc73d8, 0ee396a) and now proved unconditionally. *)
 From IronCalc Require Import Base.Prelude Base.Dec UserModel.Selection UserModel.SelectionProofs.
 
 (* the initial workbook satisfies the property *)
@@ -15,7 +17,7 @@ Proof. exact (conj init_inv (inv_sel_ok init init_inv)). Qed.
 Print Assumptions C28_init.
 
 (* one step: every operation of ui.rs, every sheet / line operation of common.rs, undo and redo
-   preserve the invariant, except inside the known classes *)
+   preserve the invariant, except on_area_selecting / on_paste_styles inside their classes *)
 Theorem C28_preservation : forall s o, inv s -> bad s o = false -> inv (step s o).
 Proof. exact step_inv. Qed.
 Print Assumptions C28_preservation.
@@ -27,27 +29,6 @@ Definition C28_statement : Prop := forall ops, sel_ok (run init ops).
 Theorem C28_refuted : ~ C28_statement.
 Proof. exact C28_refuted_thm. Qed.
 Print Assumptions C28_refuted.
-
-(* F22a: three sheets, the last one selected, sheet 0 deleted: selection 2 of 2 sheets *)
-Theorem C28_refuted_delete_sheet : ~ sel_ok (run init [ONewSheet; ONewSheet; ODelete 0]).
-Proof. exact refuted_delete. Qed.
-Print Assumptions C28_refuted_delete_sheet.
-
-(* new: redo of "delete sheet 0" keeps the index, which may be the last one *)
-Theorem C28_refuted_redo_delete :
-  ~ sel_ok (run init [ONewSheet; OSetSheet 0; ODelete 0; OUndo; OSetSheet 1; ORedo]).
-Proof. exact refuted_redo. Qed.
-Print Assumptions C28_refuted_redo_delete.
-
-(* F22b: page down keeps row - top_row: row 1048600 *)
-Theorem C28_refuted_page_down : ~ sel_ok (run init [OSetCell 1048576 1; OPageDown]).
-Proof. exact refuted_page_down. Qed.
-Print Assumptions C28_refuted_page_down.
-
-(* new: page up with the cell above the window: row -23 *)
-Theorem C28_refuted_page_up : ~ sel_ok (run init [OTopLeft 100 1; OPageUp]).
-Proof. exact refuted_page_up. Qed.
-Print Assumptions C28_refuted_page_up.
 
 (* F22c: on_area_selecting stores any target *)
 Theorem C28_refuted_area_selecting : ~ sel_ok (run init [OAreaSel 0 (-5)]).
@@ -67,7 +48,7 @@ Print Assumptions C28_refuted_paste_styles.
 
 (* every witness avoids all classes up to its last step and meets one class there *)
 Theorem C28_witnesses_tight :
-  forallb only_last_bad [w_delete; w_redo; w_page_down; w_page_up; w_area_offgrid; w_area_anchor; w_paste] = true.
+  forallb only_last_bad [w_area_offgrid; w_area_anchor; w_paste] = true.
 Proof. exact witnesses_tight. Qed.
 Print Assumptions C28_witnesses_tight.
 
@@ -99,28 +80,32 @@ Theorem C28_setters : forall s, inv s ->
 Proof. exact setters_inv. Qed.
 Print Assumptions C28_setters.
 
-(* arrow keys, shift+arrow, ctrl+arrow: whatever the hidden rows/columns, sizes, cells and window *)
+(* arrow keys, shift+arrow, ctrl+arrow, page down / up: whatever the hidden rows/columns, sizes,
+   cells and window *)
 Theorem C28_navigation : forall s, inv s ->
   (forall d, inv (step s (OArrow d))) /\
   (forall k, inv (step s (OExpand k))) /\
-  (forall d, inv (step s (ONavEdge d))).
+  (forall d, inv (step s (ONavEdge d))) /\
+  inv (step s OPageDown) /\ inv (step s OPageUp).
 Proof. exact navigation_inv. Qed.
 Print Assumptions C28_navigation.
 
-(* sheet operations other than delete, undo of anything, hiding lines *)
+(* every sheet operation (delete at any index relative to the selected one included), undo and
+   redo of anything, hiding lines *)
 Theorem C28_sheet_operations : forall s, inv s ->
-  inv (step s ONewSheet) /\ (forall i, inv (step s (ODuplicate i))) /\ (forall i j, inv (step s (OMove i j))) /\
+  inv (step s ONewSheet) /\ (forall i, inv (step s (ODuplicate i))) /\ (forall i, inv (step s (ODelete i))) /\
+  (forall i j, inv (step s (OMove i j))) /\
   (forall i, inv (step s (OHide i))) /\ (forall i, inv (step s (OUnhide i))) /\
-  (forall i n, inv (step s (ORename i n))) /\ inv (step s OUndo) /\
+  (forall i n, inv (step s (ORename i n))) /\ inv (step s OUndo) /\ inv (step s ORedo) /\
   (forall sh a b h, inv (step s (ORowsHidden sh a b h))) /\ (forall sh a b h, inv (step s (OColsHidden sh a b h))).
 Proof. exact sheet_operations_inv. Qed.
 Print Assumptions C28_sheet_operations.
 
-(* the class of delete_sheet is exact: inside it the selection IS lost *)
-Theorem C28_delete_class_exact :
-  forall s i, inv s -> bad_delete s i = true -> ~ sel_ok (step s (ODelete i)).
-Proof. exact bad_delete_breaks. Qed.
-Print Assumptions C28_delete_class_exact.
+(* the four histories that refuted the property before the repairs now satisfy it *)
+Theorem C28_repaired_witnesses :
+  forallb (fun ops => avoids init ops && sel_ok_b (run init ops)) [w_delete; w_redo; w_page_down; w_page_up] = true.
+Proof. exact repaired_witnesses. Qed.
+Print Assumptions C28_repaired_witnesses.
 
 (* the loops over hidden lines never run out of fuel *)
 Theorem C28_scan_fuel_up : forall hid limit c,
